@@ -454,9 +454,6 @@ pub assume_specification[u32::next_power_of_two](x: u32) -> (r: u32)
 //@before 1 let idx = usize::from_u32(state_id_map[i]);{
     let ghost st_i = self.states@;
 //@}
-//@after 1 self.states[idx].set_fail(fail_idx);{
-    proof { }
-//@}
 //@before 1 self.states.shrink_to_fit();{
     proof {
         lemma_cwb_final(*nfa, stl, self.states@, tb, idm, inv, owner, done);
